@@ -43,9 +43,16 @@ func Scrub(b []byte) []byte {
 	for _, pattern := range scrubberPatterns {
 		// this is a workaround since go does not yet support look ahead or look
 		// behind for regular expressions.
-		scrubbedBytes = pattern.ReplaceAllFunc(scrubbedBytes, func(b []byte) []byte {
-			return addressRegexp.ReplaceAll(b, []byte("[scrubbed]"))
-		})
+		//
+		// A match includes the delimiter that follows the address, so an
+		// address that begins right after that delimiter has nothing left
+		// to match its own leading delimiter and is skipped. A second pass
+		// finds the addresses skipped for that reason.
+		for i := 0; i < 2; i++ {
+			scrubbedBytes = pattern.ReplaceAllFunc(scrubbedBytes, func(b []byte) []byte {
+				return addressRegexp.ReplaceAll(b, []byte("[scrubbed]"))
+			})
+		}
 	}
 	return scrubbedBytes
 }
